@@ -194,12 +194,15 @@ fn run(line: &str) -> String {
         if has_tgt { app.world.get_mut::<V>(e).unwrap().x = x_start; }
         app.world.resource_mut::<Seen>().0.clear();
         app.world.resource_mut::<Events<AnimationStateChanged>>().clear();
+        // resource states named by a run-condition counterexample (a paused clock reports zero-length frames)
+        let paused = field(line, "paused") == "true";
+        if paused { app.world.resource_mut::<Time>().pause(); }
         frame(&mut app, delta);
         let a = app.world.get::<Animator<V>>(e).unwrap();
         let (ns, npos, nen) = (a.state(), a.timeline_position, a.enabled);
         let nx = if has_tgt { app.world.get::<V>(e).unwrap().x } else { 0.0 };
         let evs: Vec<AnimationState> = app.world.resource::<Seen>().0.iter().filter(|(en, _)| *en == e).map(|(_, s)| *s).collect();
-        let dd = Duration::from_secs_f32(delta);
+        let dd = if paused { Duration::ZERO } else { Duration::from_secs_f32(delta) };
         let mut bad: Vec<String> = vec![];
         let same_all = ns == st0 && npos == pos0 && nen == enabled && (!has_tgt || nx == x_start);
         if !enabled && !(same_all && evs.is_empty()) { bad.push("disabled-changes-nothing".into()); }
@@ -220,8 +223,8 @@ fn run(line: &str) -> String {
         let changed = ns != st0;
         let ev_ok = if !enabled { evs.is_empty() } else if changed { evs.len() == 1 && evs[0] == ns } else { evs.is_empty() };
         if !ev_ok { bad.push("event-iff-state-change".into()); }
-        return format!("{{\"violated\":{},\"claims\":\"{}\",\"detail\":\"pre-state {:?} enabled={} position {:?} (delay {}, total duration {}), component x = {}, frame delta {} s -> state {:?}, position {:?}, x = {} (terminal value {}), events {:?}\"}}",
-                       !bad.is_empty(), bad.join(","), st0, enabled, pos0, rdly, rdur, x_start, delta, ns, npos, nx, terminal, evs);
+        return format!("{{\"violated\":{},\"claims\":\"{}\",\"detail\":\"pre-state {:?} enabled={} position {:?} (delay {}, total duration {}), component x = {}, frame delta {} s{} -> state {:?}, position {:?}, x = {} (terminal value {}), events {:?}\"}}",
+                       !bad.is_empty(), bad.join(","), st0, enabled, pos0, rdly, rdur, x_start, delta, if paused { " (clock paused: zero-length frame)" } else { "" }, ns, npos, nx, terminal, evs);
     }
     if kind == "bevy_chain_step" {
         // One frame of the real chain_animations system: entity 0 has selector + chain (key `cur`), entity 1 has neither; the given
